@@ -146,10 +146,37 @@ def arrow(F, rep):
             whole = True
         if callee(c_) == "sylt_parser::expression::parse_precedence" and len(c_["args"]) > 1:
             lv = last(norm_path(peel(c_["args"][1]).get("path", "")))
-    rep.ob("ARROW", "parser|rhs-level", lv in ("Index", "Arrow") and not whole,
-           "the right-hand side of `->` is parsed at the call level (parse_precedence(.., Prec::%s)%s)" % (
-               lv, "; it is parsed with expression(), i.e. at the loosest level: it swallows every operator that follows, and "
-               "`a -> f(b) + c` is rejected with `Expected a call-expression after '->'`" if whole else ""), ac["sp"])
+    # the level follows from the precedence table: the climbing loop continues while level <= precedence(token), so the
+    # call / index / access openers must sit at or above the level (or `3 -> (add, sub)[1](4)` stops in front of `[`), and
+    # every binary operator below it (or `a -> f(b) + c` swallows `+ c`)
+    order = [v["name"] for v in F.adt("sylt_parser::Prec")["variants"]]
+    fpre = F.fn("sylt_parser::expression::precedence")
+    level = {}
+    for m_ in nodes(fn_body(fpre), "Match"):
+        for arm_ in m_["arms"]:
+            b_ = peel(arm_["body"])
+            lvname = last(norm_path(b_["path"])) if b_.get("k") == "Path" and b_.get("res") == "Def" else None
+            for alt_ in pat_alternatives(arm_["pat"]):
+                v_ = pat_variant(alt_)
+                if v_ and lvname:
+                    level[last(v_)] = lvname
+    postfix = {"LeftParen", "LeftBracket", "Dot", "Prime"}
+    binary = {t for t in level if t not in postfix and t != "Arrow" and level[t] != "No"}
+    rank = {n_: i for i, n_ in enumerate(order)}
+    ok_level = lv in rank and bool(binary) and postfix <= set(level) and \
+        all(rank.get(level[t], -1) >= rank[lv] for t in postfix) and all(rank.get(level[t], 99) < rank[lv] for t in binary)
+    rep.ob("ARROW", "parser|rhs-level", ok_level and not whole,
+           "the right-hand side of `->` is parsed at the call level (parse_precedence(.., Prec::%s): every call / index / access opener "
+           "%s continues it, every binary operator ends it)%s" % (
+               lv, sorted((t, level.get(t)) for t in postfix),
+               "; it is parsed with expression(), i.e. at the loosest level: it swallows every operator that follows, and "
+               "`a -> f(b) + c` is rejected with `Expected a call-expression after '->'`" if whole else "") if ok_level and not whole else
+           "the right-hand side of `->` is parsed at Prec::%s, but the call / index / access openers have levels %s and the binary "
+           "operators at most %s: %s" % (lv, sorted((t, level.get(t)) for t in postfix),
+                                         max([level[t] for t in binary], key=lambda x: rank.get(x, -1)) if binary else "?",
+                                         "a callee that is not a plain name loses its postfix (`3 -> (add, sub)[1](4)` is rejected while "
+                                         "`(add, sub)[1](3, 4)` compiles)" if lv in rank and any(rank.get(level.get(t), -1) < rank[lv] for t in postfix)
+                                         else "operators after the call are swallowed by it"), ac["sp"])
     rep.ob("ARROW", "prepended-is-lhs", ea == "self.expression(0)", "the prepended argument is the resolved left operand (%s)" % ea, line_of(a[1]))
 
 
